@@ -7,9 +7,9 @@ invariant Atomic) and specs/AtomicWriteResume.tla (apply_to interrupted and re-r
 TLC runs
   * MC_AtomicWrite_quick    the transcribed CURRENT protocol (src.replace + cleanup on every failure) explored
                             completely with INVARIANT Atomic, every transition emitted with the verdict of OutcomeOK;
-  * MC_AtomicWrite_thorough (thorough) the same for the protocols before the C19 repairs and the partial repairs:
-                            which change removes which counterexample;
-  * MC_AtomicWrite_cx       self-test of the property on the spec's historic configurations: Atomic must be violated
+  * MC_AtomicWrite_cx       self-test of the property: the configurations the spec lists as rejected (the protocols
+                            before the C19 repairs, the partial repairs, an __exit__ that swallows the error of closing
+                            the staged file) explored completely; each must have a terminal state OutcomeOK rejects
                             (the property is not vacuous; independent of the code);
   * MC_AtomicWrite_judge    emits OutcomeOK over its whole domain (the verdict table).
 spec -> code: every real write case (writer x file type x destination present/absent x
@@ -58,11 +58,9 @@ def run_models(run: Run, scratch: Path):
 
     ths = [
         threading.Thread(target=go, args=("model", "MC_AtomicWrite_quick.cfg"), kwargs={"workers": TLC_WORKERS}),
-        threading.Thread(target=go, args=("cx", "MC_AtomicWrite_cx.cfg"), kwargs={"must_pass": False}),
+        threading.Thread(target=go, args=("cx", "MC_AtomicWrite_cx.cfg")),
         threading.Thread(target=go, args=("judge", "MC_AtomicWrite_judge.cfg")),
     ]
-    if run.tier == "thorough":
-        ths.append(threading.Thread(target=go, args=("history", "MC_AtomicWrite_thorough.cfg")))
     for t in ths:
         t.start()
     for t in ths:
@@ -70,27 +68,26 @@ def run_models(run: Run, scratch: Path):
     for name, v in out.items():
         if isinstance(v, Exception):
             raise v
-    for name in ("model", "history", "cx"):
-        if name in out:
-            run.add_tlc(out[name][0])
-    cx = out["cx"][0]
-    if not (cx.violated and "Invariant Atomic is violated" in cx.out):
-        raise RuntimeError("spec self-test: Atomic does not reject the historic (pre-repair) protocols of AtomicWrite.tla:\n" + cx.out[-1500:])
+    for name in ("model", "cx"):
+        run.add_tlc(out[name][0])
+    # spec self-test: every configuration the spec lists as rejected has a terminal state that OutcomeOK rejects
+    rejected, seen = {}, set()
+    for r in out["cx"][1]:
+        t = r["to"]
+        seen.add(t["cfg"])
+        if t["how"] != "running" and not r["ok"] and not (t["how"] == "crashed" and t["fcall"] != "none"):
+            rejected.setdefault(t["cfg"], set()).add((t["pre"], t["how"], t["fcall"], t["dest"], D.coarse(t["tmp"])))
+    not_rejected = sorted(seen - set(rejected))
+    if not_rejected or "swallow_close" not in rejected:
+        raise RuntimeError(f"spec self-test: Atomic does not reject the configurations {not_rejected} of RejectedConfigs (seen: {sorted(seen)})")
+    run.note("rejected_terminal_states_per_rejected_configuration", {k: len(v) for k, v in sorted(rejected.items())})
+    run.note("swallow_close_rejected_outcomes", sorted(map(list, rejected["swallow_close"])))
     table = {}
     for r in out["judge"][1]:
         if r.get("act") == "Judge":
             table[tuple(r["args"])] = (bool(r["ok"]), sorted(r["broken"]))
     if len(table) != 2 * 3 * 9 * 4 * 4:
         raise RuntimeError(f"verdict table incomplete: {len(table)} rows")
-    cxtrace = re.findall(r"State \d+: <(\w+)", cx.out)
-    run.note("tlc_counterexample_on_historic_protocol", cxtrace)
-    if "history" in out:
-        hist = {}
-        for r in out["history"][1]:
-            t = r["to"]
-            if t["how"] != "running" and not r["ok"] and not (t["how"] == "crashed" and t["fcall"] != "none"):
-                hist.setdefault(t["cfg"], set()).add((t["pre"], t["how"], t["fcall"], t["dest"], D.coarse(t["tmp"])))
-        run.note("rejected_terminal_states_per_configuration", {k: len(v) for k, v in sorted(hist.items())})
     run.note(
         "tlc_runs",
         {n: {"states": out[n][0].distinct, "transitions": out[n][0].generated, "wall_s": round(out[n][0].wall, 1)} for n in out},
@@ -325,6 +322,8 @@ def check(run: Run):
     run.assumptions += [
         "power-loss durability (fsync ordering, page cache) is not covered: a kill is os._exit between two Python-level calls, the kernel completes what was issued",
         "a kill during write()/close() is observed at the boundary before the call; partial flushes inside one C-level write are not enumerated",
+        "a failing close() of a file the code opened for writing is instantiated as: the descriptor is released, the file keeps the first half of its bytes "
+        "(the unflushed tail is lost), OSError(EIO|ENOSPC) is raised; close() of an already closed file cannot fail and gets no fault (it stays a kill point)",
         "one faulty call site per run (failing once, or again whenever the same call on the same path is re-issued); an OSError injected into the cleanup call itself (rmtree) is allowed to leave the temporary directory",
         "nested directories inside rmtree are not boundaries (their audit events carry relative paths)",
         "new content = what an un-faulted write to an absent destination leaves (content correctness is C06/C20's subject); compressed files are compared by payload",
